@@ -125,8 +125,10 @@ def check(A):
         if st:
             n['static'] += 1
             ex = [a for a, pl in ga if a.startswith('os.path.exists(') and pl]
-            A.check(bool(ex) and "if scope['type'] == 'http' and self.static_files else None" in
-                    ex[0] and not fwd and not nf,
+            A.check(bool(ex) and ("scope['type'] == 'http'", True) in ga and
+                    ('self.static_files', True) in ga and
+                    any(txt(e.expr).startswith('get_static_file(') for e in p.events
+                        if e.kind == 'call') and not fwd and not nf,
                     'C20.static', 'ASGIApp: a static file is served only for http, if the '
                     'mapping matched and the file exists', A.site(call), key='asgi-static-guard',
                     detail=v.describe())
